@@ -128,6 +128,7 @@ def run_history(kind, hist, tmp, cmd="num-running"):
         expected_running = 1
         stopped = False
         open_clients = set()
+        parked = set()  # clients whose session sits in a waiting command (until-closed on a pool that is never closed)
 
         def connect():
             if kind == "unix":
@@ -172,24 +173,37 @@ def run_history(kind, hist, tmp, cmd="num-running"):
                     viol.append("server dropped a client right after its handshake while serving")
             elif conns.get(who) is None:
                 pass
-            elif ev == "cmd":
+            elif ev == "cmd" and cmd == "wait|num-running" and who == 0:
+                # client 0 parks in a command that waits (until-closed); it must not be answered, and it must
+                # not keep the other client from being served
                 r, w = conns[who]
-                w.write(cmd.encode() + b"\n")
+                w.write(b"until-closed\n")
                 loop.quiesce()
                 got = bytes(r._buffer)
                 r._buffer.clear()
-                if cmd == "num-running":
+                if got and not (stopped and r.at_eof()):
+                    viol.append(("until-closed answered although the pool is not closed", got))
+                if not r.at_eof():
+                    parked.add(who)
+            elif ev == "cmd":
+                r, w = conns[who]
+                this_cmd = "num-running" if cmd == "wait|num-running" else cmd
+                w.write(this_cmd.encode() + b"\n")
+                loop.quiesce()
+                got = bytes(r._buffer)
+                r._buffer.clear()
+                if this_cmd == "num-running":
                     want = str(expected_running).encode() + b"\n"
                 else:  # "start 1"
                     want = b"start-group-1\n"
                 if got == want:
-                    if cmd != "num-running":
+                    if this_cmd != "num-running":
                         expected_running += 1
                 elif stopped and got == b"" and r.at_eof():
                     # conforming: after stop the server may drop a still-connected client
                     open_clients.discard(who)
                 else:
-                    viol.append(("command not answered correctly", cmd, got, "stopped" if stopped else "serving", "others open", sorted(open_clients - {who})))
+                    viol.append(("command not answered correctly", this_cmd, got, "stopped" if stopped else "serving", "others open", sorted(open_clients - {who})))
             elif ev in ("close", "eof"):
                 r, w = conns[who]
                 if ev == "close":
@@ -210,7 +224,13 @@ def run_history(kind, hist, tmp, cmd="num-running"):
                     viol.append(("a client disconnecting changed the pool", pool.num_running, expected_running))
             if stopped:
                 if not open_clients and not task.done():
-                    viol.append(("every client is gone but the cancelled serving task is still pending", ev))
+                    if parked:
+                        # known finding KF-C19-1: the session of a client that left while its waiting command was still
+                        # pending never ends (it is not reading, so it does not notice the disconnect)
+                        viol.append(("KF-C19-1 parked session: a client that disconnected while its until-closed was pending "
+                                     "keeps the cancelled serving task pending", ev))
+                    else:
+                        viol.append(("every client is gone but the cancelled serving task is still pending", ev))
                 if task.done():
                     if kind == "unix" and os.path.exists(path):
                         viol.append("serving task done but the unix socket file still exists")
@@ -258,7 +278,10 @@ def _work(args):
         for hist in hists:
             SCALE = 1.0
             v, st = run_history(kind, hist, tmp, cmd)
-            if v:
+            if v and all(isinstance(x, tuple) and str(x[0]).startswith("KF-C19-1") for x in v):
+                # the known parked-session finding does not depend on timing: no 10x re-run needed
+                out.append({"key": v[0][0], "transport": kind, "history": hist, "cmd": cmd, "detail": repr(v[0])})
+            elif v:
                 # confirm with 10x quiescence windows before believing it (kernel timing is not owned)
                 SCALE = 10.0
                 v2, st = run_history(kind, hist, tmp, cmd)
@@ -410,6 +433,10 @@ def run(tier, seed):
         hs = list(histories(0)) + list(histories(1))
         hs += list(histories(2, max_cmds=1 if tier == "quick" else None))
         work += [(kind, hs[i::jobs], "num-running") for i in range(jobs)]
+        # one client parked in a waiting command while the other is served
+        both = [h for h in histories(2) if sum(1 for _, e in h if e == "cmd") == 2]
+        hw = [h for h in both if [e for c, e in h if c == 0][-1] == "close" and [e for c, e in h if c == 1][-1] == "close"]
+        work += [(kind, hw[i::jobs], "wait|num-running") for i in range(jobs)]
         if tier != "quick":
             hs2 = list(histories(1)) + list(histories(2, max_cmds=1))
             work += [(kind, hs2[i::jobs], "start 1") for i in range(jobs)]
